@@ -22,7 +22,7 @@ ASSUMPTIONS = ["codes <= 60 chars, <= 6 words; BMP plus a few astral characters"
 FLOORS = {"quick": {"match_cases": 100, "mismatch_cases": 150, "pake_before_code": 10, "derive_checks": 1000, "bystander_pairs": 100, "derive_in_key_notification": 80},
           "thorough": {"match_cases": 4000, "mismatch_cases": 6000, "pake_before_code": 400, "derive_checks": 40000, "bystander_pairs": 4000, "derive_in_key_notification": 3000}}
 CLASSES = ["same", "same", "nfc", "nfc", "onechar", "case", "extraword", "missingword", "compat",
-           "nameplate", "appid", "appid+same-nfc"]
+           "nameplate", "appid", "appid+same-nfc", "nameplate-spelling"]
 WORDS = ["café", "naïve", "purple", "sausages", "한글", "éclair", "ångström", "ǆemal",
          "ök", "x", "alpha", "Zulu", "ﬁsh", "𝔘nicode", "déjà", "vu", "ñandú", "Å", "ｆｕｌｌ", "ℌ"]
 
@@ -71,6 +71,16 @@ def make_codes(rng, kind):
         b = np_ + "-" + "-".join(words + ["fish", "full"])
     elif kind == "nameplate":
         b = str(int(np_) + 1) + "-" + "-".join(words)
+    elif kind == "nameplate-spelling":
+        # the same number written differently is another code (and another channel at the server)
+        how = rng.choice(["zero", "zeros", "fullwidth", "arabic-indic", "zero+fullwidth"])
+        fw = lambda t: "".join(chr(0xFF10 + int(c)) for c in t)
+        ai = lambda t: "".join(chr(0x0660 + int(c)) for c in t)
+        alt = {"zero": "0" + np_, "zeros": "000" + np_, "fullwidth": fw(np_), "arabic-indic": ai(np_), "zero+fullwidth": "0" + fw(np_)}[how]
+        if rng.random() < 0.5:
+            a = alt + "-" + "-".join(words)
+        else:
+            b = alt + "-" + "-".join(words)
     return a, b
 
 
